@@ -6,6 +6,7 @@ package main
 import (
 	"fmt"
 	"go/ast"
+	"go/constant"
 	"go/token"
 	"go/types"
 	"sort"
@@ -490,6 +491,99 @@ func runC18(c *Ctx, r *Report) {
 		}
 		return true
 	})
+	r.Doc("R-C18.12", "a fixed-size key or nonce array is filled completely: the loop that copies into it covers every index (a byte left at zero makes keys that differ only there interchangeable)")
+	{
+		nfill := 0
+		for _, fn := range p.Fns {
+			if fn.Orig != nil || !inPkgs(p, fn, "enc") {
+				continue
+			}
+			walkNoLit(fn.Body, func(n ast.Node) bool {
+				fs, ok := n.(*ast.ForStmt)
+				if !ok {
+					return true
+				}
+				// stores arr[i] = … into a local array, i the loop variable
+				var arrLen int64 = -1
+				var ivar types.Object
+				walkNoLit(fs.Body, func(m ast.Node) bool {
+					as, ok := m.(*ast.AssignStmt)
+					if !ok {
+						return true
+					}
+					for _, l := range as.Lhs {
+						ix, ok := ast.Unparen(l).(*ast.IndexExpr)
+						if !ok {
+							continue
+						}
+						if at, ok := p.TypeOf(fn, ix.X).Underlying().(*types.Array); ok {
+							if id, ok := ast.Unparen(ix.Index).(*ast.Ident); ok {
+								arrLen, ivar = at.Len(), p.ObjOf(fn, id)
+							}
+						}
+					}
+					return true
+				})
+				if arrLen < 0 || ivar == nil {
+					return true
+				}
+				nfill++
+				constOf := func(e ast.Expr) (int64, bool) {
+					if tv, ok := fn.Pkg.TypesInfo.Types[e]; ok && tv.Value != nil {
+						if v, exact := constant.Int64Val(constant.ToInt(tv.Value)); exact {
+							return v, true
+						}
+					}
+					return 0, false
+				}
+				covered, why := false, "the loop bounds are not constants the rule can evaluate"
+				var start, bound int64
+				okS, okB := false, false
+				if as, ok := fs.Init.(*ast.AssignStmt); ok && len(as.Lhs) == 1 && len(as.Rhs) == 1 {
+					if id, ok := as.Lhs[0].(*ast.Ident); ok && p.ObjOf(fn, id) == ivar {
+						start, okS = constOf(as.Rhs[0])
+					}
+				}
+				var op token.Token
+				if be, ok := fs.Cond.(*ast.BinaryExpr); ok {
+					if id, ok := ast.Unparen(be.X).(*ast.Ident); ok && p.ObjOf(fn, id) == ivar {
+						bound, okB = constOf(be.Y)
+						op = be.Op
+					}
+				}
+				step := int64(0)
+				if inc, ok := fs.Post.(*ast.IncDecStmt); ok {
+					if id, ok := ast.Unparen(inc.X).(*ast.Ident); ok && p.ObjOf(fn, id) == ivar {
+						if inc.Tok == token.INC {
+							step = 1
+						} else {
+							step = -1
+						}
+					}
+				}
+				if okS && okB && step != 0 {
+					lo, hi := int64(0), int64(-1)
+					switch {
+					case step == 1 && op == token.LSS:
+						lo, hi = start, bound-1
+					case step == 1 && op == token.LEQ:
+						lo, hi = start, bound
+					case step == -1 && op == token.GTR:
+						lo, hi = bound+1, start
+					case step == -1 && op == token.GEQ:
+						lo, hi = bound, start
+					}
+					covered = lo <= 0 && hi >= arrLen-1
+					why = fmt.Sprintf("indices %d..%d are written, the array has %d elements", lo, hi, arrLen)
+				}
+				r.Check(covered, "R-C18.12", r.Key("R-C18.12", fn, "array-fill", ""), fs.Pos(), "the copying loop covers every index of the array", "the loop that fills the fixed-size array does not cover every index ("+why+"): the bytes left at zero do not take part in sealing, so a reader whose key differs only there opens the links")
+				return true
+			})
+		}
+		if nfill == 0 {
+			r.Hold("R-C18.12", r.Key("R-C18.12", nil, "no-counted-fill", ""), token.NoPos, true, "key and nonce arrays are filled by range loops over the source or by copy (no counted loop to check)")
+		}
+	}
 	r.Floor("R-C18.4", "error variables of fallible steps in DecryptLinks", len(openErr), 2)
 	df := &Flow{P: p, Fn: dl, May: true, Entry: Facts{}}
 	df.Edge = func(cond ast.Expr, taken bool, f Facts) {
